@@ -27,6 +27,17 @@ func writeCE(v *Violation, path string) error {
 				}
 			}
 			ce[fmt.Sprintf("%s[]#%d", nd.Name, k)] = vals
+		case "blob":
+			k := bytesIdx[nd.Name]
+			bytesIdx[nd.Name] = k + 1
+			vals := make([]uint64, nd.Shape)
+			if m, ok := v.Model[nd.Term.name]; ok {
+				bs := m.Bytes()
+				for i := range bs {
+					vals[nd.Shape-len(bs)+i] = uint64(bs[i])
+				}
+			}
+			ce[fmt.Sprintf("%s[]#%d", nd.Name, k)] = vals
 		case "now":
 		default:
 			var val uint64
